@@ -92,15 +92,22 @@ class ChildError(Exception):
 # generation
 # ---------------------------------------------------------------------------
 
-def _gen_job(rng, name=None):
-    name = name or MODELS[rng.randrange(len(MODELS))]
+# models with many categorical variants are drawn more often (swarm over code paths, not over model names)
+WEIGHT = {"cached_store": 4, "multi_tier_cache": 2, "queue_policies": 3, "load_balancer": 3, "rate_limiters": 2,
+          "event_log_group": 2, "leader_election": 2, "lsm_wal": 2}
+_PICK = [m for m in MODELS for _ in range(WEIGHT.get(m, 1))]
+
+
+def _gen_job(rng, name=None, weighted=True):
+    if name is None:
+        name = _PICK[rng.randrange(len(_PICK))] if weighted else MODELS[rng.randrange(len(MODELS))]
     return {"model": name, "params": ZOO[name]["gen"](rng), "seed": rng.randrange(1, 2**31 - 1)}
 
 
 def gen(rng, tier):
     sc = _gen_job(rng)
     n_others = rng.choice([0, 1, 1, 2, 3])
-    sc["others"] = [_gen_job(rng) for _ in range(n_others)]
+    sc["others"] = [_gen_job(rng, weighted=False) for _ in range(n_others)]
     wall = [m for m in WALL_MODES if rng.random() < 0.5]
     sc["plan"] = {
         "repeat": rng.random() < 0.85,
@@ -108,6 +115,7 @@ def gen(rng, tier):
         "wall": wall,
         "hs": [h for h in HASHSEEDS[1:] if rng.random() < 0.9],
         "fresh": rng.random() < (0.06 if tier == "quick" else 0.02),
+        "obs_numpy": rng.random() < 0.25,
     }
     return sc
 
@@ -296,6 +304,10 @@ def _program(sc) -> list:
     for m in plan.get("wall", []):
         jobs0.append({**subj, "wall": m})
         marks.append((f"wall-{m}", len(jobs0) - 1))
+    if plan.get("obs_numpy"):
+        # observation only (never judged): the guides' recipe taken literally, random.seed(s) without numpy.random.seed(s)
+        jobs0.append({**subj, "numpy_seed": False})
+        marks.append(("obs-random-seed-only", len(jobs0) - 1))
     prog = [{"hs": 0, "how": "fork", "jobs": jobs0, "marks": marks}]
     for h in plan.get("hs", []):
         prog.append({"hs": h, "how": "fork", "jobs": [subj], "marks": [("hashseed", 0)]})
@@ -332,6 +344,8 @@ def run(sc):
     prog = _program(sc)
     runs = _execute(prog, full=False)
     ref = runs[0][2]
+    obs_runs = [x for x in runs if x[0].startswith("obs-")]
+    runs = [x for x in runs if not x[0].startswith("obs-")]
     model, variant = sc["model"], VARIANT[sc["model"]](sc["params"])
     counters = {f"model.{model}": 1}
     after = None
@@ -348,6 +362,9 @@ def run(sc):
     counters["probe.uuid4_called_by_model"] = int(obs["uuid4_calls"] > 1)        # 1 = the monitor's own hook id
     counters["probe.wall_clock_read_by_model"] = int(obs["wall_reads"] > 2)      # 2 = Simulation's own wall_clock_seconds
     counters["probe.event_counter_dirty"] = int(after is not None and after["obs"]["event_counter_before"] > 0)
+    for _, _, r in obs_runs:
+        counters["obs.random_seed_only_runs"] = counters.get("obs.random_seed_only_runs", 0) + 1
+        counters["obs.random_seed_only_changes_run"] = counters.get("obs.random_seed_only_changes_run", 0) + int(r["digest"] != ref["digest"])
     counters["probe.budget_hit"] = int(ref["status"] == "budget")
     counters["probe.repo_exception_in_run"] = int(ref["status"] not in ("ok", "budget"))
 
@@ -355,7 +372,7 @@ def run(sc):
     bad = [(k, hs) for k, hs, r in runs[1:] if r["digest"] != ref["digest"]]
     if bad:
         # confirm with full logs; every step in a literal fresh subprocess this time
-        full = _execute(prog, full=True, spawn_all=True)
+        full = [x for x in _execute(prog, full=True, spawn_all=True) if not x[0].startswith("obs-")]
         fref = full[0][2]
         for kind, hs, r in full[1:]:
             if r["digest"] != fref["digest"]:
